@@ -249,7 +249,7 @@ def known_match(prop, kind, detail, known):
     return None
 
 
-def run_one_config(prop, run, tier, seed, wd, tag, stats, findings, programs=None):
+def run_one_config(prop, run, tier, seed, wd, tag, stats, findings, programs=None, chunked=False):
     ti = Q if tier == "quick" else T
     rng = random.Random(seed * 1000003 + hash(run["profile"]) % 1000)
     rng = random.Random("%d/%s/%s" % (seed, prop, run["profile"]))
@@ -258,6 +258,22 @@ def run_one_config(prop, run, tier, seed, wd, tag, stats, findings, programs=Non
         programs = run["programs_fn"](tier, seed)
     if programs is None:
         programs = [gen.gen_program(rng, run["profile"]) for _ in range(n)]
+    # large program sets are processed in chunks (bounded trace files, bounded validation time per TLC run)
+    per = max(1, run["execs"][ti])
+    limit = (1200 if run.get("rawmon") else 5000) // per
+    if len(programs) > max(limit, 1) and not chunked:
+        for j in range(0, len(programs), limit):
+            run_one_config(prop, run, tier, seed + 7 * (j // limit), wd, "%sc%d" % (tag, j // limit), stats, findings,
+                           programs=programs[j:j + limit], chunked=True)
+            for f in os.listdir(wd):
+                if f.startswith("%sc%d." % (tag, j // limit)) and (f.endswith(".raw.ndjson") or f.endswith(".hist.ndjson")):
+                    try:
+                        os.remove(os.path.join(wd, f))
+                    except OSError:
+                        pass
+            if len([f for f in findings if f["kind"] != "crash"]) > 40:
+                break
+        return
     pf = os.path.join(wd, tag + ".programs.ndjson")
     with open(pf, "w") as f:
         for p in programs:
